@@ -14,6 +14,7 @@ THEOREMS = [
     "Text.fromCompactStr_valid", "Text.space_roundtrip", "Text.plan_roundtrip",
     "Text.planToStr_isSome", "Text.ordering_roundtrip", "Text.planFromStr_ok", "Text.ordFromStr_ok",
     "Csv.csv_roundtrip", "Csv.csv_to_from", "Csv.csv_trim_pad", "Csv.csv_reader_layout",
+    "Csv.csv_roundtrip_statistics", "Csv.csv_stat_reader_layout",
 ]
 
 ERRS = (ValueError, IndexError, TypeError, KeyError, OverflowError)
@@ -25,12 +26,17 @@ class Timeout(Exception):
     take practically forever)"""
 
 
+_TL = [1.0]
+
+
 @contextlib.contextmanager
 def time_limit(seconds: float):
+    """`seconds` scaled down after every timeout, so that a broken reader cannot stall the check"""
     def handler(signum, frame):
+        _TL[0] = max(0.02, _TL[0] / 2)
         raise Timeout()
     old = signal.signal(signal.SIGALRM, handler)
-    signal.setitimer(signal.ITIMER_REAL, seconds)
+    signal.setitimer(signal.ITIMER_REAL, max(0.3, seconds * _TL[0]))
     try:
         yield
     finally:
@@ -668,7 +674,11 @@ def gen_result_sets(ck: Check, real):
         objs = sorted(rng.sample(OBJ_NAMES, rng.choice([1, 2, 2, 3, 7])))
         bbk = rng.choice([BB_KEYS, BB_KEYS, BB_KEYS[:1], BB_KEYS[1:], [BB_KEYS[2]]])
         het = rng.random() < 0.5
-        yield ("random_het" if het else "random"), [rand_result(ck, objs, bbk, het) for _ in range(k)]
+        rs = [rand_result(ck, objs, bbk, het) for _ in range(k)]
+        if all(len(r.bin_bounds) == 0 for r in rs):
+            ck.count("domain_no_bin_bound_in_table_skipped")     # outside the domain (see stream_domain)
+            continue
+        yield ("random_het" if het else "random"), rs
 
 
 def mutate_table(ck: Check, hdr, rows, n_er, own=None):
@@ -1003,6 +1013,40 @@ def stream_statistics(ck: Check, ops, expect, real):
                 expect.append(("csvSp", what.split(":")[0], l2, iout2, set(titles)))
 
 
+def stream_domain(ck: Check, ops, expect):
+    """records outside the domain of csv_roundtrip (user-supplied bin_bounds: empty, or keys outside the scope
+    'bins.lowerBound'): accepted by the constructors, not round-trippable.  Lead's decision: domain restriction, no
+    finding.  They are only counted, and the model's reader is compared with the real one on the written table."""
+    from moptipy.evaluation.end_results import CsvWriter as ErW, EndResult
+    from moptipyapps.binpacking2d import packing_result as pr
+    d = ck.work / "csv"
+    d.mkdir(exist_ok=True)
+    for tag, bb in (("empty", {}), ("foreign_key", {"bins.lowerBound": 2, "foo": 2}), ("foreign_only", {"myBound": 1}),
+                    ("bound_like_key", {"bins.lowerBound": 2, "x.lowerBound": 1})):
+        # (a key 'bins.lowerBound.bins.lowerBound' would collide with 'bins.lowerBound' after re-scoping: Python's dict
+        #  keeps the later one; collisions of use-keys are not modelled, BBKey excludes that key)
+        er = EndResult("a1", "inst1", "binCount", "ibf1", 77, 5, 3, 4, 10, 20, None, 100, None)
+        r = pr.PackingResult(er, 10, 5, 100, 50, {"binCount": 5}, {"binCount.lowerBound": 1, "binCount.upperBound": 10}, bb)
+        path = str(d / "dom.csv")
+        pr.to_csv([r], path)
+        hdr, rows = parse_csv_file(path)
+        try:
+            back = list(pr.from_csv(path))
+            same = dict(back[0].bin_bounds) == bb
+            iread = "~".join(canon_rec(b) for b in back)
+        except ERRS:
+            same, iread = False, "ERR"
+        ck.count(f"domain_{tag}_" + ("roundtrips" if same else "does_not_roundtrip"))
+        erw = ErW().setup([er])
+        line = (f"csvR {'|'.join(cc(t) for t in erw.get_column_titles())} ; "
+                f"{'|'.join(cc(c) for c in erw.get_row(er))} / {cc('binCount')} / 5 / 10 5 100 50 / {fmap(r.objectives)} / "
+                f"{fmap(r.objective_bounds)} / {fmap(bb)}")
+        ops.append(line)
+        ck.case("domain " + tag, nontrivial=False)
+        expect.append(("csvR", "domain_" + tag, line,
+                       f"hdr={'|'.join(cc(h) for h in hdr)} rows={'/'.join('|'.join(cc(c) for c in x) for x in rows)} read={iread}", None))
+
+
 # ------------------------------------------------------------------ driver
 def streams(ck: Check) -> None:
     import traceback
@@ -1028,6 +1072,7 @@ def streams(ck: Check) -> None:
     guarded("experiment", lambda: real.extend(real_experiment_results(ck)))
     guarded("results", lambda: stream_results(ck, ops, expect, real))
     guarded("statistics", lambda: stream_statistics(ck, ops, expect, real))
+    guarded("domain", lambda: stream_domain(ck, ops, expect))
     outs = ck.model(ops)
     for (kind, stream, line, iout, ctx), mout in zip(expect, outs):
         short = line if len(line) < 300 else line[:300] + "…"
@@ -1052,17 +1097,47 @@ def streams(ck: Check) -> None:
 
 def check(ck: Check) -> None:
     ck.rule = ("exhaustive small scope (instances over 1..3 x 1..3 bins with 1-2 items incl. rejected ones; all 2-team plans; "
-               "all permutations of 2..4) + boundary stream (1e12 bins, 1e8 repetitions, n_items 1e12(+1), dtype thresholds +-2) "
-               "+ structured random + shipped instances + malformed stream (every truncation, exchanged separators, bad tokens); "
+               "all permutations of 2..4) + boundary stream (bins 1e12, repetitions 1e8, n_items 1e12(+1), dtype thresholds +-2) "
+               "+ structured random + shipped instance lines + CSV record sets (tiny real experiments via from_logs: 2 algorithms x "
+               "2 encodings x 2 objectives x 2 instances x 2 seeds; random sets around real EndResult objects, heterogeneous in "
+               "objectives/bin bounds/optional fields; statistics via the real from_packing_results) + malformed stream (every "
+               "truncation, exchanged separators, bad tokens; perturbed CSV tables: dropped/renamed/swapped columns, bad cells); "
                "a case is one protocol line; non-trivial = writer/constructor accepted; distinct by line hash")
     ck.assumptions += [
         "str(int) = Int.repr; int(str) = String.toInt? (Python int() additionally accepts blanks, '+', non-ASCII digits)",
         "np.fromstring(text, dtype, sep=';') = strict ';'-separated decimal tokens + C-style wrap into the dtype "
-        "(numpy also tolerates blanks, '+', a trailing ';' and silently stops at the first bad token)",
+        "(numpy also tolerates blanks, '+', a trailing ';', reads '-' as 0 and silently stops at the first bad token)",
         "sanitize_name(name)==name modelled on ASCII names (Text.nameOkB); theorem holds for any name check that rejects ';'",
         "moptipy int_range_to_dtype = Base.dtypeFor (checked at the thresholds by this stream)",
         "str.lstrip/rstrip modelled for ASCII white space",
         "final range checks of the two computed lower bounds in Instance.__new__ are outside the model (C03)",
+        "CSV: moptipy's EndResult / EndStatistics and pycommons' SampleStatistics CSV codecs round-trip "
+        "(Codec.RoundTrips / SsCodec.RoundTrips are hypotheses of the csv theorems; false for EndStatistics tables that mix "
+        "records with and without goal_f: known finding stats_goal_mixed_moptipy)",
+        "CSV: pycommons csv_write/csv_read tokenisation (';' cells, '#' comments, strip) is not modelled: tables are lists of "
+        "cells; csv_scope/csv_column/csv_select_scope, trailing-blank trimming and padding are modelled",
+        "CSV: objective values and bounds are integers (all seven shipped objectives); float values need pycommons' "
+        "num_to_str/str_to_num",
+        "PackingSpace text form: to_str = ';'.join of the values, from_str = np.fromstring + validate (validate: C04)",
+    ]
+    ck.not_proved += [
+        "packing clause: only the text layer is proved here (Text.fromstring_join: np.fromstring reads back the ';'-joined "
+        "values that fit the dtype); the full from_str(to_str(y)) = y with validate is C04's fromStr_toStr; here by correspondence",
+        "csv_roundtrip / csv_roundtrip_statistics are proved modulo library codecs (hypotheses PRDomain.codec, "
+        "PSDomain.codec, PSDomain.ss) and at table level (cells), not at character level",
+        "csv domain: records with user-supplied bin_bounds that are empty or have a key outside the scope 'bins.lowerBound' "
+        "are accepted by the constructors but not round-trippable (reader raises / drops the key); observed, outside the "
+        "property's domain of records produced by the package (hypotheses bbKey, bbSome); Lean example noBoundRecs",
+        "statistics additionally need: common objective set and common bin-bound keys in all records (writer raises "
+        "KeyError / reader rejects blank cells otherwise) and sample size of every objective's statistics = n of the end "
+        "statistics (the reader takes n from there)",
+    ]
+    ck.notes += [
+        "moptipy keeps a budget that is identical in all runs as a plain int in EndStatistics but reads it back as a "
+        "single-valued SampleStatistics; embedded end statistics are compared modulo this representation",
+        "the Instance constructor costs Theta(min(W,H)) + Theta(sum rep * #squares per item) (Dell'Amico bound): boundary "
+        "instances combine huge values only with a small second bin dimension and unit-height items",
+        "real-code calls that may not terminate after a mutation are run under a time limit and reported as violations",
     ]
     ck.lean(["Props.C19"], THEOREMS)
     streams(ck)
